@@ -25,6 +25,7 @@ import (
 	"github.com/milvus-io/milvus/pkg/util/retry"
 
 	"github.com/zilliztech/milvus-cdc/core/api"
+	"github.com/zilliztech/milvus-cdc/core/model"
 )
 
 // Call is one observed downstream call.
@@ -340,4 +341,30 @@ func (m *Meta) RemoveTaskMsg(ctx context.Context, taskID string, msgID string) e
 	defer m.mu.Unlock()
 	m.Removed = append(m.Removed, [2]string{taskID, msgID})
 	return nil
+}
+
+// AbsentTarget is an api.TargetAPI whose catalog does not contain the asked collection: the first
+// GetCollectionInfo answers "collection not found" (the reader then emits the create-collection event),
+// every later one fails unrecoverably so that StartReadCollection returns right after the event.
+type AbsentTarget struct {
+	mu    sync.Mutex
+	Asked int
+}
+
+func (t *AbsentTarget) GetCollectionInfo(ctx context.Context, collectionName, databaseName string) (*model.CollectionInfo, error) {
+	t.mu.Lock()
+	defer t.mu.Unlock()
+	t.Asked++
+	if t.Asked == 1 {
+		return nil, fmt.Errorf("collection not found[database=%s][collection=%s]", databaseName, collectionName)
+	}
+	return nil, retry.Unrecoverable(errors.New("verif: stop after the create-collection event"))
+}
+
+func (t *AbsentTarget) GetPartitionInfo(ctx context.Context, collectionName, databaseName string) (*model.CollectionInfo, error) {
+	return nil, retry.Unrecoverable(errors.New("verif: not used"))
+}
+
+func (t *AbsentTarget) GetDatabaseName(ctx context.Context, collectionName, databaseName string) (string, error) {
+	return databaseName, nil
 }
